@@ -297,7 +297,9 @@ fn known_match<'a>(known: &'a [Known], sig: &str) -> Option<&'a Known> {
     let mut first = None;
     for t in triggers {
         let want = format!("{}+{}", base, t);
-        match known.iter().find(|k| k.sig == want) {
+        // "*+T": the defect behind trigger T corrupts interpreter state, any failure shape counts
+        let any = format!("*+{}", t);
+        match known.iter().find(|k| k.sig == want || k.sig == any) {
             Some(k) => {
                 if first.is_none() {
                     first = Some(k);
